@@ -35,6 +35,9 @@ def cases(tier, seed):
             # same-sized tables, user dictionaries given in different insertion orders
             for rot in (1, 2, 3):
                 out.append(dict(kind="multiobs", nets=[n, n] if rot == 1 else [n, n, n], b=b, eqk=1, din=1, rot=rot, seed=k, draws=min(d, 4)))
+            # every dictionary in its own order, the inputs dictionary not sorted by key, different table sizes, a network without observations
+            for rot, nets in ((4, [n, n2] if b <= n2 else [n, n]), (5, [n, 0, n2] if b <= n2 else [0, n, 0]), (7, [n, n, n])):
+                out.append(dict(kind="multiobs", nets=nets, b=b, eqk=1, din=1, rot=rot, seed=k, draws=min(d, 4)))
     return out
 
 
